@@ -330,7 +330,7 @@ func Run(j *job.Job, s *job.Sink) {
 			} else {
 				v2 = addTail(v2, "  identity zzidrev;\n  identity zzidnew { base zzidrev; }\n  typedef zzrt { type int8; units \"new\"; }\n")
 			}
-			revUser := fmt.Sprintf("module zzrevuser {\n  namespace \"urn:zzrevuser\";\n  prefix zru;\n  import %s { prefix zp; }\n  identity zzy { base zp:zzidrev; }\n  typedef zzlocal { type zp:zzrt; }\n  leaf zzl { type identityref { base zp:zzidrev; } }\n  leaf zzt { type zp:zzrt; }\n  leaf zzt2 { type zzlocal; }\n  leaf zzu { type union { type zp:zzrt; type boolean; } }\n}\n", m.Name)
+			revUser := fmt.Sprintf("module zzrevuser {\n  namespace \"urn:zzrevuser\";\n  prefix zru;\n  import %s { prefix zp; }\n  identity zzy { base zp:zzidrev; }\n  typedef zzlocal { type zp:zzrt; }\n  leaf zzl { type identityref { base zp:zzidrev; } }\n  leaf zzt { type zp:zzrt; }\n  leaf zzt2 { type zzlocal; }\n  leaf zzu { type union { type zp:zzrt; type boolean; } }\n  typedef zzun { type union { type zp:zzrt; type union { type zzlocal; type identityref { base zp:zzidrev; } } } }\n  leaf zzu2 { type zzun; }\n  typedef zzir { type identityref { base zp:zzidrev; } }\n  leaf zzl2 { type zzir; }\n  leaf-list zzll { type identityref { base zp:zzidrev; } }\n  typedef zzlr { type leafref { path \"/zru:zzt\"; } }\n  leaf zzl3 { type zzlr; }\n}\n", m.Name)
 			replaced := false
 			for k := range ops {
 				// only when the loaded text is the pristine one (no injected fault)
